@@ -16,4 +16,10 @@ CHECKS = {
   'note': COMMON_NOTE + 'utf8.DecodeRuneInString and bytes.Buffer are modelled, not verified.',
   'technique': 'Coq proof (round trip through a verified JSON-string decoder, UTF-8 table) + exhaustive-window differential correspondence',
  },
+ 'C14': {
+  'text': 'Full: c14_deletes_exactly proves for every directory listing, file name, maximum age and clock value that an entry survives the model of clearExpiredFiles iff it is not (regular file, named <name>. + 14 digits, older than the cut-off); order and multiplicity are kept (c14_order_and_multiplicity_kept); corollaries for young files, directories/symlinks, prefix-sharing foreign names, the current file, and disjointness of the name/name.wf siblings. '
+          'Correspondence: generated directory populations are created on disk and run through the real scan (hook VerifClearExpired), survivors compared with the model.',
+  'note': COMMON_NOTE + 'Durations are unbounded Z seconds in the model (Go: int64 ns from an int32 hour count; no overflow for the quantified 1..720 h); os.ReadDir/Remove/Chtimes and mtime resolution are modelled, kept away from by a 120 s margin.',
+  'technique': 'Coq proof (filter characterisation against an inductive own-file spec) + differential correspondence on real directories',
+ },
 }
